@@ -65,6 +65,9 @@ MUTANTS = {
     "m18_input_section_schema_not_reset": (["C17", "C05"], [("pandora/check_configuration.py",
         '    input_configuration_schema["right"].update(base_input_configuration_schema["right"])\n',
         '    if isinstance(cfg["input"]["left"]["disp"], str):\n        input_configuration_schema["right"].update(base_input_configuration_schema["right"])\n')]),
+    "m21_optimization_right_pass_wrong_images": (["C08"], [("pandora/state_machine.py",
+        '            self.right_cv = optimization_.optimize_cv(self.right_cv, self.right_img, self.left_img)',
+        '            self.right_cv = optimization_.optimize_cv(self.right_cv, self.left_img, self.right_img)')]),
     "m20_bilateral_mutates_mask": (["C10", "C04"], [("pandora/filter/bilateral.py",
         '        disp["disparity_map"].data[valid] = disp_bilateral[valid]\n        disp.attrs["filter"] = "bilateral"\n',
         '        disp["disparity_map"].data[valid] = disp_bilateral[valid]\n        disp["validity_mask"].data[~np.isfinite(disp["disparity_map"].data)] |= cst.PANDORA_MSK_PIXEL_FILLED_NODATA\n        disp.attrs["filter"] = "bilateral"\n')]),
